@@ -155,8 +155,18 @@ CallVerdict(ev) ==
     ELSE IF ev.kind = "raise" /\ ~AllowedClass(ev.mro) THEN "exception-class"
     ELSE "ok"
 
+\* ---- a directory too large to parse here (C05: 2^16 entries and more): the harness assembles it entry by entry; this event carries
+\* the LAST entry (index n): body, the MAC stored in the file, and the reader's verdict on the whole file.  Everything else in
+\* the file is built by the same loop that the smaller crafted directories use (those ARE parsed completely by the specification).
+BigDirVerdict(ev) ==
+    LET good == CMac(ev.key, ev.n, ev.body) = ev.mac IN
+    IF good /\ ev.kind # "ok" THEN "rejected-wellformed"
+    ELSE IF ~good /\ ev.kind = "ok" THEN "accepted-malformed:entry-mac"
+    ELSE "ok"
+
 Verdict(ev) ==
     IF ev.op = "c08.wrap" THEN WrapVerdict(ev)
+    ELSE IF ev.op = "bf3.bigdir" THEN BigDirVerdict(ev)
     ELSE IF ev.op = "c14.call" THEN CallVerdict(ev)
     ELSE IF ev.op = "bf3.write" THEN Bf3WriteVerdict(ev)
     ELSE IF ev.op = "bf3.read" THEN (IF ~Bf3NoSilentAccept(ev) THEN "silent-accept" ELSE Bf3ReadVerdict(ev))
